@@ -1,9 +1,9 @@
 package chainsim
 
 import (
-	"strings"
 	"crypto/sha256"
 	"fmt"
+	"strings"
 
 	sdk "github.com/cosmos/cosmos-sdk/types"
 	banktypes "github.com/cosmos/cosmos-sdk/x/bank/types"
